@@ -34,6 +34,10 @@ def run(prop, tier, verdict):
         sel += [c for c in cells if c.get('barrier') and c['pipe'] == '' and c['codec'] == 'j' and c['proto'] in ('raw', 'pb')]
         # the mixed-outcome profile (handler statuses and unknown routes among the concurrent calls): text codecs, always included
         sel += [c for c in cells if c.get('mixed') and c['pipe'] == '' and c['codec'] in ('j', 'x', 'f') and c['proto'] in ('raw', 'json', 'pb', 'thriftbin')]
+        # the secure-plugin profile (per-message plugin state in the message swap, seeded session swap): always included
+        sel += [c for c in cells if c.get('secure')]
+        # raw byte bodies with handlers that stay inside while other frames arrive: always included
+        sel += [c for c in cells if c['codec'] == 'b' and c['hold'] == 3 and c['pipe'] in ('', 'm')]
         ops = 10
     scen = []
     for i, c in enumerate(sel):
